@@ -1,0 +1,145 @@
+//go:build verif
+
+package padding
+
+// Contracts checked by /verif/gvc (s-expression syntax, see /verif/DESIGN.md).
+// This file contains comments only.
+//
+// Abstract view.  A reader value r denotes the byte stream io.row[r][0..io.end[r]) with read position io.pos[r]
+// (ghost state declared with the io.Reader environment contract in /verif/specs/extern.contracts).  A
+// PKCS7PaddingReader p additionally has p7.start[p] (source position when p was created) and p7.q[p] (bytes
+// delivered so far).  The stream p must deliver is D = S || pad, S the N source bytes from p7.start on.
+
+//@ (ghost p7.start (Array Int B64))
+//@ (ghost p7.q (Array Int B64))
+//@ (defmacro src () (field p fIn))
+//@ (defmacro pad () (field p padding))
+//@ (defmacro st0 () (select (ghost p7.start) (obj p)))
+//@ (defmacro qq () (select (ghost p7.q) (obj p)))
+//@ (defmacro NN () (bvsub (rend (src)) (st0)))
+//@ (defmacro bs () (field p blockSize))
+//@ (defmacro padN () (pkcs7s.padlen (NN) (bs)))
+//@ (defmacro DD (j) (ite (bvult j (NN)) (select (rrow (src)) (bvadd (st0) j)) ((_ extract 7 0) (padN))))
+//@ (defmacro wfrA () (and
+//@     (not (isnil p)) (not (isnil (src))) (not (isnil (EOFv)))
+//@     (bvsge (bs) 1) (bvsle (bs) 255)
+//@     (bvule (st0) (rpos (src))) (bvule (rpos (src)) (rend (src))) (bvule (rend (src)) #x0000010000000000)
+//@     (= (field p readed) (bvsub (rpos (src)) (st0)))
+//@     (=> (field p eof) (= (rpos (src)) (rend (src))))))
+//@ (defmacro wfrB () (=> (isnil (pad)) (and (= (qq) (field p readed)) (not (field p eop)))))
+//@ (defmacro wfrC () (=> (not (isnil (pad)))
+//@         (and (field p eof) (typeof (pad) "*bytes.Reader") (distinct (obj (pad)) (obj (src)))
+//@              (= (rend (pad)) (padN)) (bvule (rpos (pad)) (padN)) (= (qq) (bvadd (NN) (rpos (pad)))))))
+//@ (defmacro wfrD () (=> (not (isnil (pad)))
+//@              (forall ((j B64)) (=> (bvult j (padN)) (= (select (rrow (pad)) j) ((_ extract 7 0) (padN)))))))
+//@ (defmacro wfrE () (=> (field p eop) (and (not (isnil (pad))) (= (rpos (pad)) (padN)))))
+//@ (defmacro wfr () (and (wfrA) (wfrB) (wfrC) (wfrD) (wfrE)))
+
+//@ (defmacro wfrNoQ () (and (wfrA) (wfrCnoQ) (wfrD) (wfrE)))
+//@ (defmacro wfrCnoQ () (=> (not (isnil (pad)))
+//@         (and (field p eof) (typeof (pad) "*bytes.Reader") (distinct (obj (pad)) (obj (src)))
+//@              (= (rend (pad)) (padN)) (bvule (rpos (pad)) (padN)))))
+
+//@ (func "(*PKCS7PaddingReader).newPadding"
+//@   (uses "io")
+//@   (expand pkcs7s.padlen)
+//@   (requires wf (wfrNoQ))
+//@   (requires ended (field p eof))
+//@   (ghost-havoc io.row io.pos io.end)
+//@   (step wfA (wfrA))
+//@   (step wfC (wfrCnoQ))
+//@   (step wfD (wfrD))
+//@   (step wfE (wfrE))
+//@   (ensures wf (wfrNoQ))
+//@   (ensures made (not (isnil (pad))))
+//@   (ensures same (and (= (qq) (old (qq))) (= (rpos (src)) (old (rpos (src)))) (= (rend (src)) (old (rend (src)))) (= (rrow (src)) (old (rrow (src))))
+//@                      (= (src) (old (src))) (= (field p eop) (old (field p eop)))))
+//@   (ensures fresh (=> (old (isnil (pad))) (and (fresh-obj (pad)) (= (rpos (pad)) 0))))
+//@   (ensures kept (=> (not (old (isnil (pad)))) (and (= (pad) (old (pad))) (= (rpos (pad)) (old (rpos (pad)))))))
+//@   (modifies (field p padding)))
+
+//@ (defmacro q0 () (old (qq)))
+//@ (defmacro rd0 () (old (field p readed)))
+
+//@ (func "(*PKCS7PaddingReader).Read" split-returns
+//@   (uses "io")
+//@   (expand pkcs7s.padlen)
+//@   (requires wf (wfr))
+//@   (ghost-havoc io.row io.pos io.end)
+//@   (ghost-set p7.q (store (old (ghost p7.q)) (obj p) (bvadd (q0) result.0)))
+//@   (ensures count (and (bvsle 0 result.0) (bvsle result.0 (len buf))))
+//@   (ensures stable (and (= (src) (old (src))) (= (st0) (old (st0))) (= (rend (src)) (old (rend (src)))) (= (rrow (src)) (old (rrow (src)))) (= (bs) (old (bs)))))
+//@   (step wfA (wfrA))
+//@   (step wfB (wfrB))
+//@   (step wfC (wfrC))
+//@   (step wfD (wfrD))
+//@   (step wfE (wfrE))
+//@   (ensures wf (wfr))
+//@   (step dataA (forall ((a B64)) (=> (and (bvult (bvsub a (off buf)) (bvsub (field p readed) (rd0))) (bvult (bvsub a (off buf)) result.0))
+//@        (= (select (row buf) a) (DD (bvadd (q0) (bvsub a (off buf))))))))
+//@   (step atEnd (=> (bvult (bvsub (field p readed) (rd0)) result.0) (and (field p eof) (bvuge (bvadd (q0) (bvsub (field p readed) (rd0))) (NN)) (bvule (q0) #x0000020000000000) (not (isnil (pad))))))
+//@   (step padB (forall ((a B64)) (=> (and (bvuge (bvsub a (off buf)) (bvsub (field p readed) (rd0))) (bvult (bvsub a (off buf)) result.0))
+//@        (= (select (row buf) a) ((_ extract 7 0) (padN))))))
+//@   (step dataB (forall ((a B64)) (=> (and (bvuge (bvsub a (off buf)) (bvsub (field p readed) (rd0))) (bvult (bvsub a (off buf)) result.0))
+//@        (= (select (row buf) a) (DD (bvadd (q0) (bvsub a (off buf))))))))
+//@   (ensures data (forall ((a B64)) (=> (bvult (bvsub a (off buf)) result.0)
+//@        (= (select (row buf) a) (DD (bvadd (q0) (bvsub a (off buf))))))))
+//@   (ensures total (bvule (qq) (bvadd (NN) (padN))))
+//@   (ensures eof (=> (isEOF result.1) (= (qq) (bvadd (NN) (padN)))))
+//@   (modifies (deref p) (elems buf))
+//@   (loop 1
+//@     (invariant wfA (wfrA))
+//@     (invariant nopad (and (isnil (pad)) (not (field p eop))))
+//@     (invariant cnt (and (bvsle 0 n) (bvsle n (len buf)) (= (field p readed) (bvadd (rd0) n)) (= (q0) (rd0))))
+//@     (invariant stable (and (= (src) (old (src))) (= (st0) (old (st0))) (= (qq) (q0)) (= (rend (src)) (old (rend (src)))) (= (rrow (src)) (old (rrow (src)))) (= (bs) (old (bs)))))
+//@     (invariant frame (forall ((a B64)) (=> (not (bvult (bvsub a (off buf)) (len buf))) (= (select (row buf) a) (select (old (row buf)) a)))))
+//@     (invariant data (forall ((a B64)) (=> (bvult (bvsub a (off buf)) n)
+//@          (= (select (row buf) a) (select (rrow (src)) (bvadd (st0) (bvadd (rd0) (bvsub a (off buf)))))))))))
+
+//@ (func NewPKCS7PaddingReader
+//@   (uses "io")
+//@   (expand pkcs7s.padlen)
+//@   (requires blocksize (and (bvsge blockSize 1) (bvsle blockSize 255)))
+//@   (requires source (and (not (isnil in)) (not (isnil (EOFv))) (bvule (rpos in) (rend in)) (bvule (rend in) #x0000010000000000)))
+//@   (fresh result)
+//@   (ghost-set p7.start (store (old (ghost p7.start)) (obj result) (rpos in)))
+//@   (ghost-set p7.q (store (old (ghost p7.q)) (obj result) 0))
+//@   (ensures wf (let ((p result)) (wfr)))
+//@   (ensures src (= (field result fIn) in)))
+
+//@ (defmacro wfw () (and (not (isnil p)) (not (isnil (field p cache))) (not (isnil (field p out)))
+//@     (bvsge (field p blockSize) 1) (bvsle (field p blockSize) 255)
+//@     (bvule (blen (field p cache)) (field p blockSize))
+//@     (bvsle 0 (len (field p swap))) ))
+
+//@ (func "(*PKCS7PaddingWriter).Write"
+//@   (requires wf (wfw))
+//@   (requires size (bvule (len buff) #x0000010000000000))
+//@   (ghost-havoc buf.len)
+//@   (ensures wf (=> (isnil err) (wfw)))
+//@   (ensures swap (or (= (obj (field p swap)) (old (obj (field p swap)))) (fresh-obj (field p swap))))
+//@   (modifies (field p swap) (object (field p swap) b8)))
+
+//@ (func "(*PKCS7PaddingWriter).Final"
+//@   (uses "io")
+//@   (requires wf (wfw))
+//@   (ensures-internal validpad (=> (isnil result) (pkcs7s.valid (row b) (off b) (len b) (field p blockSize))))
+//@   (loop 1 (invariant idx (and (bvsge rangeindex -1) (bvsle rangeindex unpadding)))
+//@           (invariant seen (forall ((j B64)) (=> (and (bvsle 0 j) (bvsle j rangeindex))
+//@                (= (select (row b) (bvadd (off b) (bvadd (bvsub length unpadding) j))) ((_ extract 7 0) unpadding)))))))
+
+//@ (func P7BlockEnc
+//@   (requires args (and (not (isnil encrypter)) (not (isnil in)) (not (isnil out)) (not (isnil (EOFv)))))
+//@   (requires source (and (bvule (rpos in) (rend in)) (bvule (rend in) #x0000010000000000)))
+//@   (ghost-havoc io.row io.pos io.end p7.start p7.q)
+//@   (ensures t true)
+//@   (loop 1 (invariant bufs (and (= (len bufIn) 1024) (= (len bufOut) 1024)))))
+
+//@ (func P7BlockDecrypt
+//@   (requires args (and (not (isnil decrypter)) (not (isnil in)) (not (isnil out))))
+//@   (ghost-havoc io.pos buf.len)
+//@   (ensures t true)
+//@   (loop 1 (invariant wf (let ((p p7Out)) (wfw)))
+//@           (invariant swap (fresh-obj (field p7Out swap)))
+//@           (invariant frame (forall ((o Int) (a B64)) (=> (not (fresh-id o)) (= (select (select (heap b8) o) a) (select (select (old (heap b8)) o) a)))))
+//@           (invariant bufs (and (= (len bufIn) 1024) (= (len bufOut) 1024)))))
